@@ -31,10 +31,10 @@ lies far outside the float range (uniform scales 1e-150..1e150 on short chains, 
 like any other, and the returned norm is checked as a number (finite, >= 0, the right magnitude), whatever its type;
 a norm that is not an mpf triggers a re-run of the same call on a uniformly rescaled copy whose norm leaves the float
 range.  normalise=False on such a state cannot be honoured by float64 tensors (the centre tensor would have to carry
-the norm): see RANGE_KEY.
+the norm): outside the domain, counted, checked only for 'no exception' and 'the cast was announced by the logged
+warning' (the module's `logger` is wrapped like `sp_linalg`), see RANGE_KEY.
 """
 import json
-import os
 import random
 import sys
 from fractions import Fraction
@@ -206,7 +206,7 @@ def build_case(seed):
         if rng.random() < 0.25:
             i = rng.choice([0, L - 1, rng.randrange(L)])
             tensors[i] = struct_tensor(rng, nrng, shapes[i], rng.choice(ONE_PATTERNS), rng.choice('LR'), base == 'int')
-        c = 10.0 ** rng.choice([-9, -8, -7, -6, -5, -4, -3, -1, 0, 1, 3, 4, 5, 6, 7, 8, 9])
+        c = 10.0 ** rng.choice([-9, -8, -7, -6, -5, -4, -3, -2, -1, -1, 0, 0, 1, 1, 2, 3, 4, 5, 6, 7, 8, 9])
         tensors = [t * c for t in tensors]
     elif style == 'xscale':
         c = 10.0 ** (rng.choice([-1, 1]) * rng.randint(30, 150))
@@ -309,13 +309,28 @@ class _LinalgProxy:
         return v
 
 
+class _LoggerProxy:
+    """stands in for the name `logger` inside qecsim.tensortools.mps: records warnings, forwards everything"""
+
+    def __init__(self, real, rec):
+        self._real, self._rec = real, rec
+
+    def __getattr__(self, name):
+        return getattr(self._real, name)
+
+    def warning(self, msg, *a, **kw):
+        self._rec.warnings.append(str(msg))
+        return self._real.warning(msg, *a, **kw)
+
+
 class Recorder:
-    """wraps left_canonical_form (segment boundaries, arguments, result) and sp_linalg in the mps module"""
+    """wraps left_canonical_form (segment boundaries, arguments, result), sp_linalg and logger in the mps module"""
 
     def __init__(self):
         from qecsim.tensortools import mps as M
         self.M = M
         self.segs = []
+        self.warnings = []
 
     def call(self, c):
         if not self.segs:
@@ -324,7 +339,7 @@ class Recorder:
 
     def __enter__(self):
         M = self.M
-        self._lcf, self._la = M.left_canonical_form, M.sp_linalg
+        self._lcf, self._la, self._log = M.left_canonical_form, M.sp_linalg, M.logger
         rec = self
 
         def lcf(mps, *a, **kw):
@@ -337,10 +352,11 @@ class Recorder:
             return res
         M.left_canonical_form = lcf
         M.sp_linalg = _LinalgProxy(self._la, self)
+        M.logger = _LoggerProxy(self._log, self)
         return self
 
     def __exit__(self, *a):
-        self.M.left_canonical_form, self.M.sp_linalg = self._lcf, self._la
+        self.M.left_canonical_form, self.M.sp_linalg, self.M.logger = self._lcf, self._la, self._log
         return False
 
 
@@ -516,18 +532,13 @@ def state_norm(run):
 
 # normalise=False asks for float64 tensors that carry the norm of the state in the centre tensor.  When that norm is
 # outside the float range the unchanged code (by design: comment + logged warning 'Casting out-of-range norm') returns
-# a zero / inf centre tensor, i.e. not the input state.  Such results are attributed to this one key.
+# a zero / inf centre tensor, i.e. not the input state.  Decision of the maintainer of this check: OUTSIDE THE DOMAIN of
+# the property — such cases are generated and counted, their numeric failures (zero / inf / NaN centre tensor) are not
+# reported, and they are checked only for 'no exception' and 'the cast was announced by the logged warning'.
 RANGE_KEY = 'unnormalised-norm-outside-float-range'
 RANGE_LO, RANGE_HI = mp.mpf('1e-280'), mp.mpf('1e280')
-REPORT_UNNORMALISED_RANGE = os.environ.get('QV_C12_RANGE_REPORT', '1') != '0'
-RANGE_ATTRIBUTED = ('nan-in-result', 'nan-produced-internally', 'state-preservation', 'exception-on-well-formed')
-
-
-def rescaled(case, k):
-    v = dict(case)
-    v['mps'] = [None if t is None else t * 10.0 ** k for t in case['mps']]
-    v['style'] = '{}*1e{}'.format(case['style'], k)
-    return v
+REPORT_UNNORMALISED_RANGE = False
+RANGE_ATTRIBUTED = ('nan-in-result', 'nan-produced-internally', 'state-preservation')
 
 
 def well_formed(case):
@@ -556,14 +567,19 @@ def extreme_copy(case, sign):
 
 def range_limited(case, info):
     """normalise=False sweep where float64 tensors cannot carry the norm (see RANGE_KEY): the scale accumulated by the
-    sweep meets the code's own 'out-of-range' condition, or the norm of the state is outside [1e-280, 1e280].
-    Returns that scale / norm, else None"""
+    sweep meets the code's own 'out-of-range' condition, or the norm of the state is below 1e-280, or prod |A_i|_F (an
+    upper bound of the norm and of everything the sweep computes) is above 1e280.  Returns that quantity, else None"""
     if case['op'] == 'trunc' or case['normalise'] or not well_formed(case) or not run_of(case['mps']):
         return None
     acc = info.get('acc')
     if acc is not None and (acc > sys.float_info.max or acc < sys.float_info.min):
         return acc
     with mp.workprec(120), np.errstate(all='ignore'):
+        # prod |A_i|_F bounds every quantity of the sweep, and rounding noise is ~1e-16 of it even when the state
+        # itself cancels to (nearly) zero
+        prod = unitised(run_of(case['mps']))[1]
+        if prod > RANGE_HI:
+            return prod
         nn = state_norm(run_of(case['mps']))
     if nn is None or nn == 0 or RANGE_LO <= nn <= RANGE_HI:
         return None
@@ -575,19 +591,27 @@ def evaluate(case, stats=None, probe=True):
     info).  A failure is a dict {what, key[, case]} (case: the input it was seen on when that is not `case`)."""
     st = stats if stats is not None else {}
     line, impl, fails, info = _evaluate(case, st)
-    if any(f['key'] in RANGE_ATTRIBUTED for f in fails):
-        nn = range_limited(case, info)
-        if nn is not None:
-            if impl == 'FloatingPointError':
-                # inf * 0 in the centre tensor, turned into an exception by the errstate of this harness: there is no
-                # return value to compare with the shape model
-                info['skip'] = 'range-limited-unnormalised-nan'
-            st['range_limited_unnormalised'] = st.get('range_limited_unnormalised', 0) + 1
-            first = next(f for f in fails if f['key'] in RANGE_ATTRIBUTED)
-            fails = [f for f in fails if f['key'] not in RANGE_ATTRIBUTED]
-            if REPORT_UNNORMALISED_RANGE:
-                fails.append({'what': 'normalise=False on a state of norm {} (outside the float range): {}'.format(
-                    mp.nstr(nn, 6), first['what']), 'key': RANGE_KEY})
+    nn = range_limited(case, info) if case['op'] != 'trunc' and not case['normalise'] else None
+    if nn is not None:
+        info['range_limited'] = 'under' if nn < 1 else 'over'
+        st['range_limited_unnormalised'] = st.get('range_limited_unnormalised', 0) + 1
+        if impl == 'FloatingPointError':
+            # inf * 0 in the centre tensor, turned into an exception by the errstate of this harness (the code itself
+            # returns NaN there, it does not raise): there is no return value to compare with the shape model
+            info['skip'] = 'range-limited-unnormalised-nan'
+        attributed = [f for f in fails if f['key'] in RANGE_ATTRIBUTED]
+        fails = [f for f in fails if f['key'] not in RANGE_ATTRIBUTED]
+        if attributed and REPORT_UNNORMALISED_RANGE:
+            fails.append({'what': 'normalise=False on a state of norm {} (outside the float range): {}'.format(
+                mp.nstr(nn, 6), attributed[0]['what']), 'key': RANGE_KEY})
+        # what is still claimed there: the cast of an out-of-range scale to float is announced by the logged warning
+        acc = info.get('acc')
+        if acc is not None and (acc > sys.float_info.max or acc < sys.float_info.min) and \
+                (impl.startswith('ok z=0') or impl == 'FloatingPointError'):      # z=1: the sweep stopped before
+            st['range_cast_warned'] = st.get('range_cast_warned', 0) + 1
+            if not info['cast_warnings']:
+                fails.append({'what': 'normalise=False: accumulated scale {} cast to float without the documented '
+                                      'warning'.format(mp.nstr(acc, 6)), 'key': 'range-cast-not-warned'})
     # a norm that is not an mpf is only right while it stays in the float range: try the same call where it does not
     if probe and info.get('norm_type') not in (None, 'mpf') and info.get('swept') and well_formed(case):
         for sign in (-1, 1):
@@ -628,7 +652,8 @@ def _evaluate(case, st):
             exc = ex
     segs = rec.segs
     info = {'segs': len(segs), 'decomps': sum(len([c for c in s['calls'] if c['k'] in 'QS']) for s in segs),
-            'skip': None, 'norm_type': None, 'swept': False, 'numeric': None}
+            'skip': None, 'norm_type': None, 'swept': False, 'numeric': None, 'range_limited': None,
+            'cast_warnings': sum('Casting out-of-range' in w for w in rec.warnings)}
     # the scale the sweep accumulated (what normalise=False multiplies into the centre tensor as a float)
     acc = mp.mpf(1)
     for c in (segs[0]['calls'] if segs else []):
@@ -824,21 +849,23 @@ def _evaluate(case, st):
         bump('numeric_not_evaluated(open boundary, too large)')
         return line, impl, fails, info
     info['numeric'] = 'dense' if use_dense else 'overlap'
+    gam, gprod, has_last = 1.0, mp.mpf(1), False
     if not use_dense:
-        # relative claims need a well-conditioned contraction: gamma = (norm of the factor passed on) / |A_site|_F is
-        # the cancellation at a step (<= 1; O(1/sqrt(bond)) generically).  prod|A_i|_F says nothing for 40+ sites.
-        gam = 1.0
+        # relative claims need a well-conditioned contraction: gamma = |matrix decomposed at a step|_F / |A_site|_F is
+        # the cancellation at that step (<= 1; O(1/sqrt(bond)) generically).  prod|A_i|_F says nothing for 40+ sites.
+        # Taken from the factors LAPACK returned and the input only, never from the result under test.
         for c in segs[0]['calls']:
+            g = None
             if c['k'] in 'QS' and 'orig_row' in c and mps[c['orig_row']] is not None:
                 f = fro(mps[c['orig_row']])
-                v = c['val'] if c['k'] == 'Q' else fro(c['s'])
-                gam = min(gam, v / f if f else 0.0)
+                g = (c['val'] if c['k'] == 'Q' else fro(c['s'])) / f if f else 0.0
             elif c['k'] == 'L':
                 f = fro(run_in[0] if op == 'rcf' else run_in[-1])
-                gam = min(gam, c['val'] / f if f else 0.0)
-        if not gam >= 1e-3 and not zero_out:
-            bump('long_ill_conditioned(no numeric claim)')
-            return line, impl, fails, info
+                g = c['val'] / f if f else 0.0
+                has_last = True
+            if g is not None:
+                gam = min(gam, g)
+                gprod *= mp.mpf(g)
     # discarded Schmidt weight (only meaningful in truncate, where the state is unit and left-canonical)
     disc, factor, truncating = 0.0, 1.0, False
     with np.errstate(all='ignore'):
@@ -869,6 +896,12 @@ def _evaluate(case, st):
         else:
             ii = overlap(t_in, t_in)
             n_in = mp.sqrt(ii)
+            if not has_last and gprod != 0:
+                # no norm of the last tensor was taken (normalise=False): |in| / prod|A_i|_F = prod of all gammas
+                gam = min(gam, float(n_in / gprod))
+            if not gam >= 1e-3 and not zero_out:
+                bump('long_ill_conditioned(no numeric claim)')
+                return line, impl, fails, info
             if not zero_out:
                 oo, io = overlap(t_out, t_out), overlap(t_in, t_out)
                 n_out = mp.sqrt(oo)
@@ -895,8 +928,11 @@ def _evaluate(case, st):
                 fail('zero state mapped to a non-zero state', 'state-preservation')
         else:
             if use_dense:
-                rf = float(rho) if abs(rho) < mp.mpf('1e300') else float('inf')
-                err = fro(d_in - rf * d_out) if np.isfinite(rf) else float('inf')
+                if n_out == 0:
+                    err = float(n_in)
+                else:
+                    rf = float(rho) if abs(rho) < mp.mpf('1e300') else float('inf')
+                    err = fro(d_in - rf * d_out) if np.isfinite(rf) else float('inf')
                 if not truncating:
                     bump('state_preservation')
                     if not err <= 1e-10:
@@ -1014,11 +1050,13 @@ def run(ctx):
         if info['skip']:
             skipped += 1
             ctx.count('skipped', info['skip'])
+            ctx.count('range_limited', info['range_limited'])
             if info['skip'].startswith('range-limited'):
                 for f in fails:
                     ctx.monitor_fail(f['what'], case_desc(f.get('case', case)), key=f['key'])
             continue
         ctx.count('numeric_route', info['numeric']); ctx.count('norm_type', info['norm_type'])
+        ctx.count('range_limited', info['range_limited'])
         ctx.case(line, impl, nontrivial=info['decomps'] > 0, meta={'seed': seed})
         for f in fails:
             ctx.monitor_fail(f['what'], case_desc(f.get('case', case)), key=f['key'])
@@ -1048,8 +1086,11 @@ def run(ctx):
         'long_truncation_error': '|in - norm*out|/|in| <= norm/|in| * sqrt(sum discarded sigma^2)(1+1e-8) + {:g}'
                                  .format(LONG_REL),
         'long_ill_conditioned(no numeric claim)': 'overlap route, some step cancelled below 1e-3 of |A_site|_F',
-        'range_limited_unnormalised': 'normalise=False, |state| outside [1e-280, 1e280]: failures attributed to '
-                                      + RANGE_KEY,
+        'range_limited_unnormalised': 'normalise=False and accumulated scale outside the float range, |state| < 1e-280 '
+                                      'or prod|A_i|_F > 1e280: outside the domain, zero / inf / NaN centre tensor not '
+                                      'reported',
+        'range_cast_warned': 'normalise=False, accumulated scale outside [float min, float max]: the code logged '
+                             '"Casting out-of-range norm" and raised nothing',
         'norm_type_probe': 'norm not an mpf: same call re-run on a copy rescaled so that |state| leaves the float range',
     }
     ctx.explored = {k: {'evaluations': v, 'rule': rules.get(k, k), 'exhaustive': False} for k, v in sorted(stats.items())}
@@ -1065,6 +1106,10 @@ def run(ctx):
         'mpmath accumulates the norm exactly enough that norm == 0 iff a zero flag was raised',
         'the Q oracle entry is scipy.linalg.norm(R) evaluated by the harness on the R factor scipy.linalg.qr returned '
         'to the code (identical to the value the unchanged code computes)',
+        'normalise=False results whose true norm lies outside the float64 range cannot be represented by float64 '
+        'tensors at all; the code logs a warning and casts; such cases are generated, counted (coverage.explored.'
+        'range_limited_unnormalised, input_distribution.range_limited) and checked only for no exception / warning '
+        'logged; the extreme-scale classes keep their full claims for normalise=True and truncate (mpf norm)',
         'overlap route (chains too long for a dense contraction): long double transfer matrices with mpf scale; '
         'numeric claims only when no sweep step cancelled below 1e-3 (counted otherwise)',
     ]
